@@ -89,7 +89,7 @@ func (w *World) findFunc(con *Contract) *ssa.Function {
 	if pkg == nil {
 		return nil
 	}
-	name := con.Func
+	name := con.target()
 	if strings.HasPrefix(name, "(") {
 		close := strings.Index(name, ")")
 		recv := name[1:close]
